@@ -1462,6 +1462,153 @@ def directory_family(ctx: Ctx, tmp: str) -> None:
 
 
 # =============================================================================================
+#  imports WITHOUT schemaLocation that are satisfied through another imported document (transitively):
+#  every order of the xs:import children of the main document × every admissible set of location-less imports
+#  (the namespace is reachable over located imports from a located import of the main document) × both orders of
+#  the imports inside an imported document × location-less imports INSIDE the imported documents, with references
+#  by QName from the main document to every namespace: one schema, one build outcome
+# =============================================================================================
+TI_NS = {'a': 'urn:ta', 'b': 'urn:tb', 'c': 'urn:tc'}
+TI_FACET = {'a': '<xs:restriction base="xs:string"><xs:maxLength value="3"/></xs:restriction>',
+            'b': '<xs:restriction base="xs:int"><xs:maxInclusive value="100"/></xs:restriction>',
+            'c': '<xs:restriction base="xs:string"><xs:enumeration value="x"/><xs:enumeration value="y"/></xs:restriction>'}
+TI_SHAPES = [('chain2', 'ab', {'a': 'b'}), ('chain3', 'abc', {'a': 'b', 'b': 'c'}), ('diamond', 'abc', {'a': 'c', 'b': 'c'}),
+             ('fan', 'abc', {'a': 'bc'}), ('fan+chain', 'abc', {'a': 'bc', 'b': 'c'})]
+TI_XMLNS = ' '.join(f'xmlns:{k}="{v}"' for k, v in TI_NS.items())
+TI_VALUES = {'a': ('abc', 'abcd'), 'b': ('7', '700'), 'c': ('x', 'z')}
+
+
+def ti_reachable(edges: dict, located: list) -> set:
+    seen, todo = set(), list(located)
+    while todo:
+        x = todo.pop()
+        if x not in seen:
+            seen.add(x)
+            todo.extend(edges.get(x, ''))
+    return seen
+
+
+def ti_files(nss: str, edges: dict, order: list, noloc: set, inner_rev: bool, inner_noloc: bool) -> dict:
+    files = {}
+    for x in nss:
+        targets = list(edges.get(x, ''))
+        if inner_rev:
+            targets.reverse()
+        text = (f'<xs:schema xmlns:xs="http://www.w3.org/2001/XMLSchema" targetNamespace="{TI_NS[x]}" {TI_XMLNS} '
+                'elementFormDefault="qualified">\n')
+        for y in targets:
+            text += (f'<xs:import namespace="{TI_NS[y]}"/>\n' if inner_noloc else
+                     f'<xs:import namespace="{TI_NS[y]}" schemaLocation="t{y}.xsd"/>\n')
+        text += f'<xs:simpleType name="T">{TI_FACET[x]}</xs:simpleType>\n<xs:element name="item" type="{x}:T"/>\n'
+        for y in targets:
+            text += f'<xs:element name="e_{y}" type="{y}:T"/>\n<xs:attribute name="at_{y}" type="{y}:T"/>\n'
+        files[f't{x}.xsd'] = text + TAIL
+    text = (f'<xs:schema xmlns:xs="http://www.w3.org/2001/XMLSchema" targetNamespace="urn:tm" xmlns="urn:tm" {TI_XMLNS} '
+            'elementFormDefault="qualified">\n')
+    for x in order:
+        text += (f'<xs:import namespace="{TI_NS[x]}"/>\n' if x in noloc else
+                 f'<xs:import namespace="{TI_NS[x]}" schemaLocation="t{x}.xsd"/>\n')
+    text += '<xs:element name="root"><xs:complexType><xs:sequence>\n'
+    for x in nss:
+        text += f'<xs:element ref="{x}:item"/><xs:element name="l_{x}" type="{x}:T" maxOccurs="unbounded"/>\n'
+        for y in edges.get(x, ''):
+            text += f'<xs:element ref="{x}:e_{y}" minOccurs="0"/>\n'
+    text += '</xs:sequence>\n'
+    for x in nss:
+        for y in edges.get(x, ''):
+            text += f'<xs:attribute ref="{x}:at_{y}"/>\n'
+    files['main.xsd'] = text + '</xs:complexType></xs:element>\n' + TAIL
+    return files
+
+
+def ti_probes(nss: str, edges: dict) -> list:
+    out = []
+    for bad in [None] + list(nss):
+        body, attrs = '', ''
+        for x in nss:
+            v = TI_VALUES[x][1 if bad == x else 0]
+            body += f'<{x}:item>{v}</{x}:item><l_{x}>{v}</l_{x}><l_{x}>{TI_VALUES[x][0]}</l_{x}>'
+            for y in edges.get(x, ''):
+                w = TI_VALUES[y][1 if bad == y else 0]
+                body += f'<{x}:e_{y}>{w}</{x}:e_{y}>'
+                attrs += f' {x}:at_{y}="{w}"'
+        out.append(f'<root xmlns="urn:tm" {TI_XMLNS}{attrs}>{body}</root>')
+    out.append(f'<root xmlns="urn:tm" {TI_XMLNS}><l_a>abc</l_a></root>')
+    return out
+
+
+def transitive_imports(ctx: Ctx, tmp: str) -> None:
+    import itertools
+    for si, (name, nss, edges) in enumerate(TI_SHAPES):
+        probes = ti_probes(nss, edges)
+        variants: list = [(list(nss), frozenset(), False, False)]
+        subsets = [frozenset(c) for r in range(len(nss)) for c in itertools.combinations(nss, r)]
+        for order in itertools.permutations(nss):
+            for noloc in subsets:
+                located = [x for x in order if x not in noloc]
+                if not noloc <= ti_reachable(edges, located):
+                    continue    # (a location-less import of a namespace nobody loads: legitimately unresolved)
+                for inner_rev in ((False, True) if any(len(v) > 1 for v in edges.values()) else (False,)):
+                    variants.append((list(order), noloc, inner_rev, False))
+            # location-less imports inside the imported documents, every namespace located in the main document
+            variants.append((list(order), frozenset(), False, True))
+        bases: dict = {}
+        n_before = len(ctx.failures)
+        for vi, (order, noloc, inner_rev, inner_noloc) in enumerate(variants):
+            if len(ctx.failures) - n_before >= 4:
+                break    # (enough failing inputs of this shape)
+            for cls in ('XMLSchema10', 'XMLSchema11'):
+                if cls == 'XMLSchema11' and vi and vi % 3 != ctx.seed % 3 and ctx.tier == 'quick':
+                    continue
+                base = bases.get(cls)
+                root = os.path.join(tmp, f'ti{si}_{vi}_{cls[-2:]}')
+                files = ti_files(nss, edges, order, noloc, inner_rev, inner_noloc)
+                materialise(files, root)
+                case = {'transitive-imports': name, 'class': cls, 'main import order': order,
+                        'imports without schemaLocation': sorted(noloc), 'inner imports reversed': inner_rev,
+                        'inner imports without schemaLocation': inner_noloc}
+                extra = {'base_files': base[1] if base else files, 'files': files, 'probes': probes, 'open': 'abs'}
+                try:
+                    schema, view = build_real(os.path.join(root, 'main.xsd'), cls=cls)
+                except Exception as e:   # noqa
+                    if base is None:
+                        ctx.count('transitive-imports: base does not build')
+                        ctx.broken.append(f'transitive-imports: the fully located arrangement of {name} is rejected: '
+                                          f'{type(e).__name__}: {norm_text(str(e))[:200]}')
+                        continue
+                    ctx.failure('an arrangement of the xs:import statements (order / location-less import of a namespace '
+                                'loaded through another imported document) is rejected while the fully located one is accepted',
+                                dict(case, **extra), {'error': type(e).__name__, 'message': norm_text(str(e))[:300]})
+                    continue
+                obs = observe(schema, probes)
+                purity(ctx, case, extra)
+                ctx.case(case, True, tag='transitive-imports:' + name + '/' + ('located' if not noloc and not inner_noloc
+                                                                                  else 'inner-noloc' if inner_noloc else 'noloc'))
+                # (Imports.imports_loaded_spec: the union of the closures of the located imports)
+                loaded = sorted(ns for ns in schema.maps.namespaces if ns.startswith('urn:t'))
+                want = sorted({'urn:tm'} | {TI_NS[y] for y in ti_reachable(edges, [x for x in order if x not in noloc])})
+                if loaded != want or any(len(schema.maps.namespaces[ns]) != 1 for ns in want):
+                    ctx.failure('a namespace of the layout is loaded twice or not at all', dict(case, **extra),
+                                {'loaded': {ns: len(schema.maps.namespaces[ns]) for ns in loaded}, 'expected': want})
+                # (Props/C09 Imports.imports_recorded: exactly the namespace attributes, in document order)
+                if list(schema.imported_namespaces) != [TI_NS[x] for x in order]:
+                    ctx.failure('the namespaces recorded as imported by the main document depend on the arrangement of '
+                                'its xs:import statements', dict(case, **extra),
+                                {'imported_namespaces': list(schema.imported_namespaces),
+                                 'declared': [TI_NS[x] for x in order]})
+                if base is None:
+                    bases[cls] = (obs, files)
+                    ctx.count('transitive-imports-probes:invalid', sum(1 for p in obs['probes'] if p['errors']))
+                    ctx.count('transitive-imports-probes:valid', sum(1 for p in obs['probes'] if not p['errors']))
+                else:
+                    dd = diff_obs(base[0], obs)
+                    if dd is not None:
+                        ctx.failure('the order of the xs:import statements / omitting the schemaLocation of a namespace '
+                                    'loaded through another import changes the schema: ' + dd['what'],
+                                    dict(case, **extra), dd)
+
+
+# =============================================================================================
 #  exhaustive small scope (XSD 1.1): every ordered pair of operand typings under textually identical XPath tests
 #  (xs:assert on attributes and on children, assertion facet on $value), three declaration orders
 # =============================================================================================
@@ -1642,6 +1789,7 @@ def run(ctx: Ctx, driver_ok: bool) -> None:
         registry_family(ctx, tmp, batch)
         wildcard_pairs(ctx, tmp)
         directory_family(ctx, tmp)
+        transitive_imports(ctx, tmp)
         assertion_pairs(ctx, tmp)
         corpus(ctx, tmp, batch)
         flush(ctx, batch, drv)
